@@ -22,7 +22,7 @@ V1 == <<118>>                   \* "v"
 ValAlphabet == {SP, TAB, DQ, BSL, HASH, SEMI, LF, CR, 110, 116, 98, 97, EQ, VT}
 SubAlphabet == {DQ, BSL, DOT, SP, 97, 65, RBR, HASH, SEMI, TAB, EQ, CR}
 NameAlphabet == {97, 65, 49, DASH}
-FileValAlphabet == {SP, TAB, DQ, BSL, HASH, SEMI, LF, CR, 110, 116, 97, EQ, LBR}
+FileValAlphabet == {SP, TAB, DQ, BSL, HASH, SEMI, LF, CR, 110, 116, 98, 97, EQ, LBR}
 FileHdrAlphabet == {115, 83, SP, TAB, DQ, BSL, RBR, DOT, HASH, LF, DASH, EQ, 49}
 
 OneVal(sec, hs, sub, k, v) == <<[sec |-> sec, hs |-> hs, sub |-> sub, items |-> <<[k |-> k, v |-> v]>>]>>
